@@ -18,6 +18,7 @@ fn main() {
         pr: PROFILE,
         npairs: if o.n > 0 { o.n as usize } else { 200 },
         cap: 0,
+        fixed: None,
     };
     let mut t: Vec<Entry<Ctx>> = vec![];
     let mut ts: Vec<Entry<Ctx>> = vec![];
@@ -37,6 +38,11 @@ fn main() {
     tb.extend(for_w32!(lay_table!(Ctx; run_bits;)));
     tb.extend(for_w64!(lay_table!(Ctx; run_bits;)));
     tb.extend(for_w128!(lay_table!(Ctx; run_bits;)));
+    if let Some(path) = &o.replay {
+        replay_events(&mut c, path, &[&t, &ts, &tb], &o.widths);
+        c.wr.flush();
+        return;
+    }
     for e in t.iter().chain(ts.iter()).chain(tb.iter()) {
         if o.widths.is_empty() || o.widths.contains(&e.lay.w) {
             (e.run)(&mut c);
